@@ -13,7 +13,7 @@ import os
 
 from .core import VERIF_ROOT
 
-PATH = os.path.join(VERIF_ROOT, 'KNOWN_FINDINGS.txt')
+PATH = os.environ.get('VMON_KNOWN_FILE') or os.path.join(VERIF_ROOT, 'KNOWN_FINDINGS.txt')
 
 
 def _feat(v, name, default=None):
